@@ -11,4 +11,6 @@ import framework as fw
 print(fw.build_coq()[-400:])
 print(fw.build_model_driver())
 print(fw.build_harness())
+import clibuild
+print(clibuild.build_cli())   # C19: the cedar CLI from the current source, harness/target-cli
 PY
